@@ -515,6 +515,7 @@ def n1_async(pieces, file, applied):
     """async fn -> fn ; `.await` removed; returns list of piece indices where an await was"""
     si = sig(pieces)
     awaits = []
+    n1b_sites = []
     for k, i in enumerate(si):
         p = pieces[i]
         if p.text == "async" and p.tkind == "ident" and k + 1 < len(si) and pieces[si[k + 1]].text in ("fn", "move", "{", "|"):
@@ -526,6 +527,15 @@ def n1_async(pieces, file, applied):
                 pieces[i + 1].dead = True
             applied.add("N1", file, p.line, "async fn -> fn")
         if p.text == "await" and p.tkind == "ident" and k > 0 and pieces[si[k - 1]].text == ".":
+            # N1b: awaiting a bare local (`fut.await`: a future VALUE, not the call of an async fn) becomes the call of the
+            # stub's `wait()` leaf; the template supplies the stub (e.g. the select-all round of Server::get_next_call)
+            if k >= 2 and pieces[si[k - 2]].tkind == "ident" and (k < 3 or pieces[si[k - 3]].text not in (".", "::")) \
+                    and pieces[si[k - 2]].text not in ("self",):
+                n1b_sites.append(i)
+                pieces[si[k - 1]].mark = "await"
+                applied.add("N1b", file, p.line, f"{pieces[si[k - 2]].text}.await -> {pieces[si[k - 2]].text}.wait() (await of a future value: stub leaf; cancel point)")
+                awaits.append(si[k - 1])
+                continue
             pieces[si[k - 1]].dead = True
             p.dead = True
             # drop whitespace between the previous token and `.await` when it is only a line break + indent
@@ -535,6 +545,9 @@ def n1_async(pieces, file, applied):
             applied.add("N1", file, p.line, ".await removed (cancel point)")
             pieces[si[k - 1]].mark = "await"
             awaits.append(si[k - 1])
+    for i in reversed(n1b_sites):
+        ln = pieces[i].line
+        pieces[i:i + 1] = [Piece(t.text, "rw", ln, rule="N1b", tkind=t.kind) for t in lex("wait()")]
     return awaits
 
 
@@ -573,7 +586,10 @@ def _lex_pat(s):
     out = []
     k = 0
     while k < len(ct):
-        if ct[k].text == "$" and k + 1 < len(ct) and ct[k + 1].kind == "ident":
+        if ct[k].text == "$" and k + 2 < len(ct) and ct[k + 1].text == "#" and ct[k + 2].kind == "ident":
+            out.append(("$1", ct[k + 2].text))      # `$#NAME`: exactly ONE identifier token (safe at the start of a pattern)
+            k += 3
+        elif ct[k].text == "$" and k + 1 < len(ct) and ct[k + 1].kind == "ident":
             out.append(("$", ct[k + 1].text))
             k += 2
         else:
@@ -590,6 +606,17 @@ def _match_at(pieces, si, k, pat, pi, caps):
     if kind == "t":
         if k < len(si) and pieces[si[k]].text == val:
             return _match_at(pieces, si, k + 1, pat, pi + 1, caps)
+        return None
+    if kind == "$1":
+        if k < len(si) and pieces[si[k]].tkind == "ident" and (val not in caps or
+                "".join(pieces[x].text for x in range(si[caps[val][0]], si[caps[val][1] - 1] + 1)) == pieces[si[k]].text):
+            caps2 = dict(caps)
+            caps2.setdefault(val, (k, k + 1))
+            r = _match_at(pieces, si, k + 1, pat, pi + 1, caps2)
+            if r is not None:
+                caps.clear()
+                caps.update(caps2)
+            return r
         return None
     # wildcard: balanced, non-greedy, at least one token
     depth = 0
@@ -651,7 +678,7 @@ def apply_rewrite(pieces, rule, pat_s, rep_s, count, file, applied):
             if not (lit.startswith('"') and lit.endswith('"')) or "\\" in lit:
                 raise ExtractError(f"rewrite {rule}: $bytes({name}) needs a plain string literal, got {lit}")
             return "&[" + ", ".join(f"0x{b:02x}u8" for b in lit[1:-1].encode("utf-8")) + "]"
-        rep = re.sub(r"\$bytes\(([A-Za-z_][A-Za-z0-9_]*)\)", lambda m: str_bytes(m.group(1)), rep_s)
+        rep = re.sub(r"\$bytes\(([A-Za-z_][A-Za-z0-9_]*)\)", lambda m: str_bytes(m.group(1)), rep_s.replace("$#", "$"))
         rep = re.sub(r"\$([A-Za-z_][A-Za-z0-9_]*)", lambda m: cap_text(m.group(1)), rep)
         line = pieces[si[k]].line
         kill(pieces, range(si[k], si[e - 1] + 1))
@@ -848,6 +875,76 @@ def n30_alt(pieces, file, applied):
         count += 1
     if count == 0:
         raise ExtractError("N30: no `alt((..)).parse_next(input)` found")
+
+
+def n32_canonical_loops(pieces, file, applied):
+    """N32: `loop { if C { break; } REST }` -> `while !(C) { REST }` (the `if` is the first statement of the body, has no
+    `else`, and contains nothing but `break;`).  The two forms are the same program; loop invariants in the templates are
+    written for the `while` form, so a refactoring between the forms does not disturb the proof."""
+    while True:
+        si = sig(pieces)
+        hit = None
+        for k in range(len(si) - 6):
+            if pieces[si[k]].text == "loop" and pieces[si[k]].tkind == "ident" and pieces[si[k + 1]].text == "{" and pieces[si[k + 2]].text == "if":
+                # condition up to the `{` at depth 0
+                d = 0
+                j = k + 3
+                while j < len(si):
+                    t = pieces[si[j]]
+                    if t.tkind == "punct" and t.text in "([":
+                        d += 1
+                    elif t.tkind == "punct" and t.text in ")]":
+                        d -= 1
+                    elif d == 0 and t.text == "{":
+                        break
+                    j += 1
+                if j + 3 < len(si) and [pieces[si[j + x]].text for x in (1, 2, 3)] == ["break", ";", "}"] and pieces[si[j + 4]].text != "else":
+                    if any(pieces[si[x]].text in ("let", "&&", "||") and pieces[si[x]].text == "let" for x in range(k + 3, j)):
+                        continue   # `if let` is not a boolean condition
+                    hit = (k, j)
+                    break
+        if hit is None:
+            return
+        k, j = hit
+        cond = "".join(pieces[i].text for i in range(si[k + 3], si[j - 1] + 1) if not pieces[i].dead).strip()
+        line = pieces[si[k]].line
+        # kill `if C { break; }` and the `loop` keyword; emit `while !(C)` in place of `loop`
+        kill(pieces, range(si[k + 2], si[j + 3] + 1))
+        pieces[si[k]].dead = True
+        newp = [Piece(t.text, "rw", line, rule="N32", tkind=t.kind) for t in lex(f"while !({cond})")]
+        pieces[si[k]:si[k]] = newp
+        applied.add("N32", file, line, f"loop {{ if {cond} {{ break; }} .. }} -> while !({cond}) {{ .. }}")
+
+
+def n33_canonical_local(pieces, name, pat_s, file, applied):
+    """N33: alpha-renaming of a local.  `//@ local NAME "pattern with $#X"`: the pattern locates the binding of a local
+    (once); every identifier token of the item equal to the captured name - except after `.` / `::` (fields, methods,
+    paths) - is renamed to NAME, which must not already occur.  Renaming a local consistently does not change the
+    program; invariants and hints in the templates can then use the canonical name whatever the source calls it."""
+    ms = find_pattern(pieces, pat_s)
+    if len(ms) == 0:
+        return      # this form of the binding does not occur (another `local` line may describe the form that does)
+    if len(ms) != 1:
+        raise ExtractError(f"N33 local {name}: binding pattern {pat_s!r} matched {len(ms)} times, expected at most 1")
+    (k, e, caps, si) = ms[0]
+    if "X" not in caps:
+        raise ExtractError(f"N33 local {name}: the pattern must capture the binding as `$#X`")
+    a, b = caps["X"]
+    cur = pieces[si[a]].text
+    if cur == name:
+        return
+    si = sig(pieces)
+    if any(pieces[i].text == name and pieces[i].tkind == "ident" for i in si):
+        raise ExtractError(f"N33 local {name}: the canonical name already occurs in the item")
+    n = 0
+    for pos, i in enumerate(si):
+        pc = pieces[i]
+        if pc.tkind == "ident" and pc.text == cur and not (pos > 0 and pieces[si[pos - 1]].text in (".", "::")):
+            pc.text = name
+            pc.kind = "rw"
+            pc.rule = "N33"
+            n += 1
+    applied.add("N33", file, pieces[si[0]].line, f"local `{cur}` renamed to its canonical name `{name}` ({n} occurrences)")
 
 
 def n12_break_value(pieces, name, file, applied):
@@ -1302,6 +1399,12 @@ class Generator:
                         elif d == "n30":
                             opts["n30"] = True
                             cur = None
+                        elif d.startswith("local "):
+                            m = re.match(r'local\s+(\S+)\s+"((?:[^"\\]|\\.)*)"', d)
+                            if not m:
+                                raise ExtractError(f"bad local directive: {d}")
+                            opts.setdefault("locals", []).append((m.group(1), m.group(2)))
+                            cur = None
                         elif d == "trusted":
                             opts["trusted"] = True
                             cur = None
@@ -1417,6 +1520,10 @@ class Generator:
         if loc["kind"] == "fn":
             awaits = n1_async(pieces, file, self.applied)
             n2_logging(pieces, file, self.applied)
+        if loc["kind"] == "fn":
+            n32_canonical_loops(pieces, file, self.applied)
+        for (nm, pat) in opts.get("locals", []):
+            n33_canonical_local(pieces, nm, pat, file, self.applied)
         if opts.get("n19"):
             n19_byte_strings(pieces, file, self.applied)
         if opts.get("n29"):
@@ -1563,6 +1670,20 @@ class Generator:
                     ss = stmt_start(pieces, si, k, body_k + 1)
                     arm = ss < 0
                     ss = abs(ss)
+                    if not arm:
+                        # `let b = &mut self.x[..]; f(b).await` : the assertion mentions `self`, which the borrow `b` still
+                        # holds; creating a borrow changes no state, so the cancel point's assertion may stand in front of it
+                        while True:
+                            ps = stmt_start(pieces, si, ss - 1, body_k + 1) if ss - 1 > body_k + 1 else -1
+                            if ps < 0 or ps >= ss:
+                                break
+                            toks = [pieces[si[x]].text for x in range(ps, ss)]
+                            if len(toks) >= 6 and toks[0] == "let" and toks[2] == "=" and toks[3] == "&" and toks[-1] == ";" \
+                                    and toks[1] in [pieces[si[x]].text for x in range(ss, k + 1)] \
+                                    and not any(t in ("(", "await", "?") for t in toks[4:] if t == "await" or t == "?"):
+                                ss = ps
+                            else:
+                                break
                     expr = " ".join(CLAUSE_RE.sub("", l).strip() for l in cancel_block.lines).strip()
                     cname = _cancel_name(cancel_block) or f"{iid}.cancel"
                     expr_lines = [f"        assert({expr}); //# {cname}.{n}" + (f" tags={','.join(_cancel_tags(cancel_block, tags))}" if _cancel_tags(cancel_block, tags) else "")]
